@@ -396,12 +396,20 @@ def run_sharded(exe, lines, shards=NCPU, env=None, ulimit_stack=False):
     return out
 
 
+LAST_LINES = []
+LAST_MODEL_OBS = {}
+
+
 def run_both(lines):
     """lines: list of '<id> <mode> ...'.  Returns (model_obs, impl_obs) dicts by id."""
+    global LAST_LINES, LAST_MODEL_OBS
     with ThreadPoolExecutor(max_workers=2) as ex:
         fm = ex.submit(run_sharded, DRIVER, lines)
         fi = ex.submit(run_sharded, HARNESS, lines)
-        return fm.result(), fi.result()
+        m, i = fm.result(), fi.result()
+    if len(lines) > len(LAST_LINES):
+        LAST_LINES, LAST_MODEL_OBS = list(lines), dict(m)
+    return m, i
 
 
 def case_id(prefix, n):
